@@ -503,10 +503,66 @@ Definition check_jks (input impl : arg) : arg :=
   | _ => AL []
   end.
 
+(* --- large containers through file.Inspect (op big): the report reduced to description, number of children and
+   the children at sampled positions (first, second, middle, last but one, last); the count rule of the property:
+   n entries written -> the container's description, exactly n children, and the child at every sampled position is
+   the entry at that position as it is described when inspected alone (so the entries are neither lost, nor
+   shifted, nor out of order at the sampled places) *)
+Definition big_desc (kind : Z) : bytes :=
+  if (kind =? 0)%Z then bs "multiple PEM blocks"
+  else if (kind =? 1)%Z then bs "SSH authorized_keys"
+  else if (kind =? 2)%Z then bs "SSH known_hosts"
+  else if (kind =? 3)%Z then bs "Java Keystore (JKS)"
+  else bs "Java Keystore (JCEKS)".
+
+Definition big_child_ok (kind : Z) (sample : arg) (got : arg) : bool :=
+  match obs_info (arg_nth 1 sample), got with
+  | Some alone, AL [AB _; AL _; AL _] =>
+      let g := info_of_arg got in
+      if (kind =? 0)%Z then info_eqb g alone
+      else if (kind =? 1)%Z then info_eqb g alone && bytes_eqb (i_desc alone) (bs "SSH public key")
+      else if (kind =? 2)%Z then
+        bytes_eqb (i_desc alone) (bs "SSH public key")
+        && info_eqb g (Info (bs "SSH public key") ((bs "Hosts", arg_bytes (arg_nth 2 sample)) :: i_attrs alone) [])
+      else
+        bytes_eqb (i_desc g) (arg_bytes (arg_nth 2 sample) ++ bs " (trustedCertEntry)")
+        && match i_children g with [c] => info_eqb c alone && is_cert_desc (i_desc alone) | _ => false end
+  | _, _ => false
+  end.
+
+Fixpoint big_first_bad (kind : Z) (samples got : list arg) : option Z :=
+  match samples, got with
+  | [], [] => None
+  | s :: samples', g :: got' =>
+      if (arg_Z (arg_nth 0 s) =? arg_Z (arg_nth 0 g))%Z && big_child_ok kind s (arg_nth 1 g)
+      then big_first_bad kind samples' got' else Some (arg_Z (arg_nth 0 s))
+  | s :: _, [] => Some (arg_Z (arg_nth 0 s))
+  | [], _ :: _ => Some (-1)%Z
+  end.
+
+Definition check_big (input impl : arg) : arg :=
+  let kind := arg_Z (arg_nth 0 input) in
+  let n := arg_Z (arg_nth 1 input) in
+  let size := dec_of_Z (arg_Z (arg_nth 0 (arg_nth 3 input))) in
+  let what := bs "large container (" ++ big_desc kind ++ bs ", " ++ dec_of_Z n ++ bs " entries, " ++ size ++ bs " octets): " in
+  match impl with
+  | AL [AZ 0%Z; AL [AB desc; AZ count; AL got]] =>
+      if negb (bytes_eqb desc (big_desc kind)) then
+        AB (what ++ bs "reported as '" ++ desc ++ bs "' with " ++ dec_of_Z count ++ bs " children")
+      else if negb (count =? n)%Z then
+        AB (what ++ bs "report has " ++ dec_of_Z count ++ bs " children")
+      else match big_first_bad kind (arg_list (arg_nth 2 input)) got with
+           | Some k => AB (what ++ bs "child " ++ dec_of_Z k ++ bs " does not describe entry " ++ dec_of_Z k ++ bs " as it is described when inspected alone (or entries are out of order)")
+           | None => AL []
+           end
+  | _ => AB (what ++ bs "unreadable (error or panic)")
+  end.
+
 Definition check_C06 (op : bytes) (input impl : arg) : arg :=
   if bytes_eqb op (bs "akeys") then check_ssh false input impl
   else if bytes_eqb op (bs "khosts") then check_ssh true input impl
   else if bytes_eqb op (bs "sshline") then check_sshline input impl
   else if bytes_eqb op (bs "pem") then check_pem input impl
   else if bytes_eqb op (bs "jks") then check_jks input impl
+  else if bytes_eqb op (bs "big") then check_big input impl
   else AL [].
